@@ -70,7 +70,8 @@ def run(ctx):
         inline = lambda g2, t: g2["def"] != "header::Header::write_to" or True
         I = absint.Interp(F)
         ps = I.run(f)
-        dirty_path = (('T', ('param', 1)), (('f', 'dirty'),))
+        from .. import writer_model as wm_
+        dirty_path = (('T', ('param', 1)), (('f', wm_.WriterFacts(F).dirty_field),))
 
         def dirty_stores(p):
             return [(i, e) for i, e in enumerate(p.eff) if e[0] == 'store' and e[1] == dirty_path]
